@@ -1,0 +1,181 @@
+//go:build verif
+
+// Copyright Istio Authors
+//
+// Licensed under the Apache License, Version 2.0 (the "License");
+// you may not use this file except in compliance with the License.
+// You may obtain a copy of the License at
+//
+//     http://www.apache.org/licenses/LICENSE-2.0
+//
+// Unless required by applicable law or agreed to in writing, software
+// distributed under the License is distributed on an "AS IS" BASIS,
+// WITHOUT WARRANTIES OR CONDITIONS OF ANY KIND, either express or implied.
+// See the License for the specific language governing permissions and
+// limitations under the License.
+
+package controller
+
+import (
+	v1 "k8s.io/api/core/v1"
+	"k8s.io/apimachinery/pkg/types"
+
+	"istio.io/istio/pkg/verif"
+)
+
+// ---------------------------------------------------------------------------------------------
+// C15: the pod-IP index of the Kubernetes registry is a function of which pod has which IP
+// ---------------------------------------------------------------------------------------------
+
+// What happens after the index has been updated (telling the xDS server, recomputing services for a label
+// change) is outside this index: its effects on other state are forgotten, and it is assumed not to write
+// the index (it runs after the lock is released and only reads the pod cache).
+//
+//verif:trusted-contract (*PodCache).proxyUpdates
+//verif:writes-nothing
+func ctProxyUpdatesFrame(pc *PodCache, pod *v1.Pod, isPodUpdate bool) {
+	pc.proxyUpdates(pod, isPodUpdate)
+}
+
+// Re-queueing an endpoint event (the callback handed to the cache) does not touch the index.
+//
+//verif:quiet-callback PodCache.queueEndpointEvent
+
+func podAt(pc *PodCache, ip string, key types.NamespacedName) bool {
+	_, ok := pc.podsByIP[ip][key]
+	return ok
+}
+
+// pcInv: representation invariant - the two maps are each other's inverse (a pod is filed under exactly the
+// IP recorded for it), no IP keeps an empty set, and no two IPs share one set object.
+func pcInv(pc *PodCache) bool {
+	return pc.podsByIP != nil && pc.ipByPods != nil && pc.needResync != nil && !verif.Same(pc.podsByIP, pc.needResync) &&
+		// the sets of endpoints waiting for a pod are not the sets of pods of an IP
+		verif.Forall(func(a string) bool {
+			return verif.Forall(func(b string) bool {
+				return pc.needResync[a] == nil || !verif.Same(pc.needResync[a], pc.podsByIP[b])
+			})
+		}) &&
+		verif.Forall(func(ip string) bool {
+			return verif.Forall(func(key types.NamespacedName) bool {
+				cur, f := pc.ipByPods[key]
+				return podAt(pc, ip, key) == (f && cur == ip)
+			})
+		}) &&
+		verif.Forall(func(ip string) bool {
+			s, f := pc.podsByIP[ip]
+			return !f || (s != nil && len(s) > 0)
+		}) &&
+		verif.Forall(func(a string) bool {
+			return verif.Forall(func(b string) bool {
+				return a == b || pc.podsByIP[a] == nil || !verif.Same(pc.podsByIP[a], pc.podsByIP[b])
+			})
+		})
+}
+
+// from the statement: "... depend only on the cluster's current objects, not on the order in which ...
+// events arrived ... IP reuse and label changes all end in the same endpoint sets": after a pod is recorded
+// with an IP, the index says exactly that for this pod - whatever IP it had before is forgotten - and
+// nothing else changes for any other pod. The index after a sequence of such updates is therefore the
+// function "pod -> last IP recorded", whatever the order of updates to different pods.
+//
+//verif:contract (*PodCache).addPod
+//verif:prop C15
+//verif:nosafety
+func ctAddPod(pc *PodCache, pod *v1.Pod, ip string, key types.NamespacedName, labelUpdated bool) {
+	verif.Requires("cache-well-formed", pc != nil && pcInv(pc))
+	known := podAt(pc, ip, key)
+	pc.addPod(pod, ip, key, labelUpdated)
+	verif.Ensures("pod-recorded-under-this-ip", pc.ipByPods[key] == ip && podAt(pc, ip, key))
+	verif.Ensures("other-pods-keep-their-ip", verif.Forall(func(k types.NamespacedName) bool {
+		cur, f := pc.ipByPods[k]
+		return k == key || (f == verif.Old(func() bool { _, f0 := pc.ipByPods[k]; return f0 }) && cur == verif.Old(func() string { return pc.ipByPods[k] }))
+	}))
+	verif.Ensures("cache-well-formed", pcInv(pc))
+	// endpoints that were waiting for a pod with this IP are no longer waiting (unless nothing changed: the
+	// pod was already recorded under this IP)
+	_, waiting := pc.needResync[ip]
+	verif.Ensures("waiting-endpoints-released", !waiting || known)
+}
+
+//verif:contract (*PodCache).deleteIP
+//verif:prop C15
+//verif:nosafety
+func ctDeleteIP(pc *PodCache, ip string, podKey types.NamespacedName) {
+	verif.Requires("cache-well-formed", pc != nil && pcInv(pc))
+	was := podAt(pc, ip, podKey)
+	removed := pc.deleteIP(ip, podKey)
+	_, f := pc.ipByPods[podKey]
+	verif.Ensures("removed-iff-it-was-filed-under-this-ip", removed == was)
+	verif.Ensures("pod-forgotten-when-removed", !removed || (!f && !podAt(pc, ip, podKey)))
+	verif.Ensures("stale-delete-changes-nothing", removed || verif.Forall(func(k types.NamespacedName) bool {
+		cur, fk := pc.ipByPods[k]
+		return fk == verif.Old(func() bool { _, f0 := pc.ipByPods[k]; return f0 }) && cur == verif.Old(func() string { return pc.ipByPods[k] })
+	}))
+	verif.Ensures("other-pods-keep-their-ip", verif.Forall(func(k types.NamespacedName) bool {
+		cur, fk := pc.ipByPods[k]
+		return k == podKey || (fk == verif.Old(func() bool { _, f0 := pc.ipByPods[k]; return f0 }) && cur == verif.Old(func() string { return pc.ipByPods[k] }))
+	}))
+	verif.Ensures("cache-well-formed", pcInv(pc))
+}
+
+// Endpoints seen before their pod wait under the pod's IP and stop waiting when they are deleted.
+//
+//verif:contract (*PodCache).queueEndpointEventOnPodArrival
+//verif:prop C15
+//verif:nosafety
+func ctQueueEndpointEventOnPodArrival(pc *PodCache, key types.NamespacedName, ip string) {
+	verif.Requires("cache-well-formed", pc != nil && pc.needResync != nil)
+	verif.Requires("waiting-sets-present", verif.Forall(func(i string) bool { s, f := pc.needResync[i]; return !f || s != nil }))
+	pc.queueEndpointEventOnPodArrival(key, ip)
+	_, ok := pc.needResync[ip][key]
+	verif.Ensures("endpoint-waits-for-the-pod", ok)
+}
+
+// Lemmas over the contracts above: what the index holds after a few events does not depend on their order.
+
+// Two pods recorded in either order: the result is the symmetric closed form below.
+//
+//verif:lemma
+//verif:prop C15
+func lemmaPodEventsOfDifferentPodsCommute(pc *PodCache, p1, p2 *v1.Pod, ip1, ip2 string, k1, k2 types.NamespacedName) {
+	verif.Requires("cache-well-formed", pc != nil && pcInv(pc))
+	verif.Requires("different-pods", k1 != k2)
+	before := verif.Snapshot()
+	pc.addPod(p1, ip1, k1, false)
+	pc.addPod(p2, ip2, k2, false)
+	verif.Assert("both-recorded-others-untouched", pc.ipByPods[k1] == ip1 && pc.ipByPods[k2] == ip2 &&
+		verif.Forall(func(k types.NamespacedName) bool {
+			cur, f := pc.ipByPods[k]
+			return k == k1 || k == k2 || (f == verif.At(before, func() bool { _, f0 := pc.ipByPods[k]; return f0 }) && cur == verif.At(before, func() string { return pc.ipByPods[k] }))
+		}))
+	verif.Assert("filed-where-recorded", podAt(pc, ip1, k1) && podAt(pc, ip2, k2) && pcInv(pc))
+}
+
+// IP reuse: a pod goes away and another pod gets its IP - whatever the first pod was, only the second is
+// filed under the IP.
+//
+//verif:lemma
+//verif:prop C15
+func lemmaIPReuse(pc *PodCache, p1, p2 *v1.Pod, ip string, k1, k2 types.NamespacedName) {
+	verif.Requires("cache-well-formed", pc != nil && pcInv(pc))
+	verif.Requires("different-pods", k1 != k2)
+	pc.addPod(p1, ip, k1, false)
+	pc.deleteIP(ip, k1)
+	pc.addPod(p2, ip, k2, false)
+	_, f1 := pc.ipByPods[k1]
+	verif.Assert("only-the-new-pod-has-the-ip", !f1 && !podAt(pc, ip, k1) && podAt(pc, ip, k2) && pc.ipByPods[k2] == ip)
+}
+
+// A late delete for an address the pod no longer has changes nothing: the pod stays under its current IP.
+//
+//verif:lemma
+//verif:prop C15
+func lemmaStaleDeleteAfterIPChange(pc *PodCache, p *v1.Pod, ipA, ipB string, k types.NamespacedName) {
+	verif.Requires("cache-well-formed", pc != nil && pcInv(pc))
+	verif.Requires("address-changed", ipA != ipB)
+	pc.addPod(p, ipA, k, false)
+	pc.addPod(p, ipB, k, false)
+	removed := pc.deleteIP(ipA, k)
+	verif.Assert("pod-keeps-its-current-address", !removed && pc.ipByPods[k] == ipB && podAt(pc, ipB, k) && !podAt(pc, ipA, k))
+}
